@@ -100,6 +100,7 @@ def run(chk, repo):
     chk.attempt(keyword_order, chk, repo, mod)
     from .c13 import summary_published_as_parsed
     chk.attempt(summary_published_as_parsed, chk, repo)
+    chk.attempt(summary_values, chk, repo, mod)
     chk.count("functions", 3)
 
 
@@ -431,3 +432,82 @@ def s3(chk, repo, mod):
     ok_wl = wl is not None and any(isinstance(n, ast.JoinedStr) and any(isinstance(v, ast.FormattedValue) and norm(v.value) == wl.positional_params[1] for v in n.values) for n in ast.walk(wl.node)) \
         and any(isinstance(n, ast.Return) and norm(n.value) == wl.positional_params[0] for n in wl.own_nodes())
     chk.require(ok_wl, "C14-S3", f"{mod.relpath}:with_lineno", "with_lineno writes the line number into the error and returns it", "with_lineno no longer names the line number", key="with_lineno")
+
+
+def summary_values(chk, repo, mod):
+    """C14-S11: transform_summary evaluated on concrete section dicts (two model files: single-digit month / day, a leap day, a year
+    end; a blank autocheck entry): the documented conversions give the documented values - ISO dates from the scene id (yymmdd) and
+    from yyyymmdd / 'yyyymmdd hh:mm:ss.fff' texts with every component zero-padded, integers and floats, the (pixels, lines) pairs,
+    'N/A' for a blank check, the resampling table"""
+    from collections import OrderedDict
+    from ..schema import SUMMARY_MODEL
+    from ..shapes import Const, DictS, Interp, ListLit, Obj, ShapeError, TupS, _Raise
+    where = f"{mod.relpath}:transform_summary"
+    chk.rule("C14-S11", "transform_summary on concrete model files: ISO dates (zero-padded), numbers, shape pairs, 'N/A' defaults and table entries come out as documented", 20)
+    files = [
+        dict(sid="ALOS2225333200-190105", date="2019-01-05", center="20190105 01:02:03.456", center_iso="2019-01-05T01:02:03.456", start="20190105 00:59:07.009", start_iso="2019-01-05T00:59:07.009",
+             obs="20190105", obs_iso="2019-01-05", orbit=22533, frame=3200),
+        dict(sid="ALOS2098765432-160229", date="2016-02-29", center="20161231 23:59:59.999", center_iso="2016-12-31T23:59:59.999", start="20161009 10:09:08.070", start_iso="2016-10-09T10:09:08.070",
+             obs="20161009", obs_iso="2016-10-09", orbit=9876, frame=5432),
+    ]
+    for f in files:
+        values = {
+            ("odi", "SceneId"): f["sid"], ("odi", "Comment"): "a b", ("scs", "SceneID"): f["sid"], ("scs", "SceneShift"): "-2",
+            ("pds", "ProductID"): "WBDR1.5GUD", ("pds", "ResamplingMethod"): "CC", ("pds", "UTM_ZoneNo"): "54", ("pds", "MapDirection"): "MapNorth", ("pds", "OrbitDataPrecision"): "Precision",
+            ("pds", "AttitudeDataPrecision"): "Onboard", ("pds", "PixelSpacing"): "25.0",
+            ("img", "SceneCenterDateTime"): f["center"], ("img", "SceneStartDateTime"): f["start"], ("img", "OffNadirAngle"): "32.4",
+            ("pdi", "ProductFormat"): "CEOS", ("pdi", "BitPixel"): "16", ("pdi", "ProductDataSize"): "123.4", ("pdi", "CntOfL15ProductFileName"): "6",
+            ("ach", "TimeCheck"): "GOOD", ("ach", "AttitudeCheck"): "", ("rad", "PracticeResultCode"): "GOOD",
+            ("lbi", "ObservationDate"): f["obs"], ("lbi", "ProcessFacility"): "SCMO", ("lbi", "Sensor"): "SAR",
+        }
+        for i in range(1, 7):
+            values[("pdi", f"L15ProductFileName{i:02d}")] = f"FILE-{i}"
+        for i in range(3):
+            values[("pdi", f"NoOfPixels_{i}")] = str(100 + i)
+            values[("pdi", f"NoOfLines_{i}")] = str(200 + i)
+        raw = DictS(OrderedDict((sec, DictS(OrderedDict((k, Const(values.get((sec, k), "x"))) for k in keys))) for sec, keys in SUMMARY_MODEL.items()))
+        I = Interp(repo)
+        try:
+            out = I.call(I.resolve_global(mod, "transform_summary"), [raw], {})
+        except _Raise as e:
+            chk.fail("C14-S11", where, f"transform_summary raises on a well-formed model file (scene id {f['sid']}): {e.what[:100]}", key="values:raises")
+            continue
+        except (ShapeError, RecursionError) as e:
+            raise AnalysisError(f"{where}: cannot be evaluated on a concrete model file: {str(e)[:120]}")
+
+        def attr(path, name):
+            g = out
+            for p_ in path:
+                d = g.fields.get("data") if isinstance(g, Obj) else None
+                g = d.items.get(p_) if isinstance(d, DictS) else None
+            a = g.fields.get("attrs") if isinstance(g, Obj) else None
+            v = a.items.get(name) if isinstance(a, DictS) else None
+            if isinstance(v, Const):
+                return v.v
+            if isinstance(v, (TupS, ListLit)) and all(isinstance(x, Const) for x in v.elts):
+                return tuple(x.v for x in v.elts) if isinstance(v, TupS) else [x.v for x in v.elts]
+            return repr(v)
+        expect = [
+            (("scene_specification",), "date", f["date"], "the acquisition date of the scene id as an ISO date"),
+            (("scene_specification",), "orbit_accumulation", f["orbit"], "the orbit number of the scene id"),
+            (("scene_specification",), "scene_frame", f["frame"], "the frame number of the scene id"),
+            (("scene_specification",), "SceneShift", -2, "an integer"),
+            (("image_information",), "SceneCenterDateTime", f["center_iso"], "an ISO date-time"),
+            (("image_information",), "SceneStartDateTime", f["start_iso"], "an ISO date-time"),
+            (("image_information",), "OffNadirAngle", 32.4, "a float"),
+            (("label_information",), "ObservationDate", f["obs_iso"], "an ISO date"),
+            (("product_specification",), "UTM_ZoneNo", 54, "an integer"),
+            (("product_specification",), "PixelSpacing", 25.0, "a float"),
+            (("product_specification",), "ResamplingMethod", "cubic convolution", "the documented table entry"),
+            (("product_information",), "BitPixel", 16, "an integer"),
+            (("product_information", "shapes"), "1", (101, 201), "the (pixels, lines) pair of image 1"),
+            (("autocheck",), "AttitudeCheck", "N/A", "'N/A' for a blank entry"),
+            (("autocheck",), "TimeCheck", "GOOD", "the text as it stands"),
+        ]
+        for path, name, want, what in expect:
+            got = attr(path, name)
+            if name == "1" and got == "None":
+                got = attr(path, 1)
+            same = got == want and type(got) is type(want)
+            chk.require(same, "C14-S11", where, f"summary/{'/'.join(path)}@{name} = {want!r} ({what})",
+                        f"summary/{'/'.join(path)}@{name} is {got!r} for the model file with scene id {f['sid']}; documented: {want!r} ({what})", key=f"values:{'/'.join(path)}:{name}")
